@@ -3,4 +3,4 @@ From Coq Require Import List ZArith NArith Bool.
 Import ListNotations.
 From Verif.C03 Require Export Model.
 From Verif.C03 Require Export Run.
-Definition mismatch_ids := mismatch_from (check_with true) 0%N.
+Definition mismatch_ids := mismatch_from (check_with false) 0%N.
